@@ -24,17 +24,18 @@ sys.path.insert(0, common.REPO)
 
 
 class Ctx:
-    def __init__(self, pid, tier, seed, driver, replay=None):
+    def __init__(self, pid, tier, seed, driver, replay=None, scale=1.0, salt=0):
         self.pid = pid
         self.tier = tier
         self.seed = seed
-        self.rng = random.Random((seed * 1000003) ^ hash_str(pid))
+        self.scale = scale
+        self.rng = random.Random((seed * 1000003) ^ hash_str(pid) ^ (salt * 7919))
         self.driver = driver
         self.replay = replay
         self.procs = min(16, os.cpu_count() or 1)
 
     def budget(self, quick, thorough):
-        scale = float(os.environ.get('VERIF_BUDGET_SCALE', '1'))
+        scale = float(os.environ.get('VERIF_BUDGET_SCALE', '1')) * self.scale
         return max(1, int((quick if self.tier == 'quick' else thorough) * scale))
 
 
@@ -147,10 +148,10 @@ def main():
     strong = [f for f in violations if not getattr(f, 'weak', False)]
     weak = [f for f in violations if getattr(f, 'weak', False)]
     if weak and not strong and tier_for_search == 'quick' and not args.replay:
-        # a correspondence about something the property does not prescribe broke: search deeper (thorough budget,
-        # direct oracles) for an input on which the property itself fails
+        # a correspondence about something the property does not prescribe broke: search further (four times the
+        # quick budget on fresh random inputs, direct oracles) for an input on which the property itself fails
         try:
-            ctx2 = Ctx(pid, 'thorough', seed, driver)
+            ctx2 = Ctx(pid, 'quick', seed, driver, scale=4.0, salt=1)
             ctx2.tier_label = tier
             deeper = mod.run(ctx2)
             for f in deeper.failures:
